@@ -33,6 +33,7 @@ pub fn dispatch(cmd: &str, c: &Value) -> Value {
         "stream_names" => stream_names(c),
         "fasta_present" => fasta_present(c),
         "pansn" => pansn(c),
+        "file_naming" => file_naming(c),
         #[cfg(ekg_ragc_verif)]
         "range_query" => range_query(c),
         #[cfg(ekg_ragc_verif)]
@@ -570,6 +571,32 @@ pub fn details_batches(c: &Value) -> Value {
     json!({ "batch1": {"counts": streams[0], "group": streams[1], "in_group": streams[2], "len": streams[3], "rev": streams[4]} })
 }
 
+/// C19: sample name derived from the file name, for the plain and the gzip presentation of the same one-record file
+fn file_naming(c: &Value) -> Value {
+    use ragc_core::contig_iterator::{ContigIterator, MultiFileIterator};
+    use std::io::Write;
+    let base = String::from_utf8_lossy(&bytes(&c["base"])).to_string();
+    let ext = c["ext"].as_str().unwrap_or(".fa").to_string();
+    let dir = std::env::temp_dir().join(format!("ragc-replay-naming-{}-{}", std::process::id(), std::time::SystemTime::now().duration_since(std::time::UNIX_EPOCH).unwrap().as_nanos()));
+    std::fs::create_dir_all(&dir).unwrap();
+    let plain = dir.join(format!("{}{}", base, ext));
+    let gz = dir.join(format!("{}{}.gz", base, ext));
+    std::fs::write(&plain, b">c1\nAC\n").unwrap();
+    {
+        let f = std::fs::File::create(&gz).unwrap();
+        let mut enc = flate2::write::GzEncoder::new(f, flate2::Compression::default());
+        enc.write_all(b">c1\nAC\n").unwrap();
+        enc.finish().unwrap();
+    }
+    let name_of = |p: &std::path::Path| -> Option<Vec<u8>> {
+        let mut it = MultiFileIterator::new(vec![p.to_path_buf()]).ok()?;
+        it.next_contig().ok()?.map(|(s, _, _)| s.into_bytes())
+    };
+    let (a, b) = (name_of(&plain), name_of(&gz));
+    let _ = std::fs::remove_dir_all(&dir);
+    json!({ "plain": a, "gz": b })
+}
+
 // ---------------------------------------------------------------- whole pipeline (C01/C04/C05/C15 pipeline views)
 /// Run the real StreamingQueueCompressor on the given samples `runs` times with `threads` workers and once with one worker; every
 /// run must terminate (watchdog), extract to the input, and all archives must be byte-identical. With `fault_at` the output goes
@@ -635,6 +662,40 @@ pub fn pipeline(c: &Value) -> Value {
         Ok(data)
     };
     let reference = match one(1, 0) { Ok(d) => d, Err(e) => return json!({"ok": false, "why": format!("1 worker: {}", e), "timeout": e == "timeout"}) };
+    if let Some(fr) = c.get("fault_fractions").and_then(|x| x.as_array()) {
+        // write-fault view: the first failing write at several offsets of the real archive (file-size limit, EFBIG)
+        extern "C" { fn setrlimit(resource: i32, rlim: *const [u64; 2]) -> i32; fn signal(signum: i32, handler: usize) -> usize; }
+        let full = reference.len() as u64;
+        let mut offsets: Vec<u64> = fr.iter().map(|f| ((f.as_f64().unwrap() * full as f64) as u64).min(full - 1)).collect();
+        for back in [1u64, 7, 8, 9, 16, 40] { if full > back { offsets.push(full - back); } }
+        offsets.sort(); offsets.dedup();
+        unsafe { signal(25, 1); }
+        let mut swallowed = vec![];
+        for &phi in offsets.iter() {
+            let path = tmp_path(&format!("pipef{}", phi));
+            let lim = [phi, u64::MAX];
+            unsafe { setrlimit(1, &lim); }
+            let (samples2, splitters2, path2, driver2) = (samples.clone(), splitters.clone(), path.clone(), driver.clone());
+            let mut cfg = mk_cfg(threads);
+            if driver == "single" { cfg.concatenated_genomes = true; }
+            let r = (|| -> anyhow::Result<()> {
+                let mut comp = StreamingQueueCompressor::with_splitters(&path2, cfg, splitters2)?;
+                for (si, (sn, contigs)) in samples2.iter().enumerate() {
+                    if si == 1 && driver2 == "single" { comp.drain()?; }
+                    for (cn, d) in contigs { comp.push(sn.clone(), cn.clone(), d.clone())?; }
+                    if si == 0 && driver2 == "multi" { comp.drain()?; comp.sync_and_flush("AAA#0_REF")?; }
+                }
+                comp.finalize()
+            })();
+            let inf = [u64::MAX, u64::MAX];
+            unsafe { setrlimit(1, &inf); }
+            let size = std::fs::metadata(&path).map(|m| m.len()).unwrap_or(0);
+            let _ = std::fs::remove_file(&path);
+            if r.is_ok() && size < full { swallowed.push(json!({"phi": phi, "size": size})); }
+        }
+        return json!({ "ok": swallowed.is_empty(), "full_size": full, "offsets": offsets, "swallowed": swallowed,
+                       "why": if swallowed.is_empty() { String::new() } else { "finalize returned Ok although a write failed and the archive is truncated".to_string() } });
+    }
     let mut distinct: Vec<Vec<u8>> = vec![reference.clone()];
     for r in 0..runs {
         match one(threads, r + 1) {
